@@ -447,7 +447,8 @@ def _entry_points(col: Collector, rule="C01.R7"):
         if not sv:
             raise AnalysisError(f"{cls}.{meth}: no self._manager.set_value(...) -- cannot decide")
         for ev, m in sv:
-            ok = S.match(m["r"], S.fcall(refcls, S.SELF, key, mgr)) is not None and m["v"] == val
+            ca = S.call_args(m["r"], ("_owner", "_key", "_manager")) if S.is_call_of(m["r"], ("glob", refcls)) else None
+            ok = ca is not None and tuple(ca) == (S.SELF, key, mgr) and m["v"] == val       # positional or by keyword
             col.add(rule, f"{cls}.{meth}#assign-through-manager", ok, s.loc(ev),
                     f"{cls}.{meth} assigns through manager.set_value({refcls}(self, key, manager), value)", S.show(ev.term))
     s = sctx(repo, "BaseRef", "_set_to_expr")
